@@ -442,6 +442,9 @@ class Certificate:
         """
         if issuer.certificate_has_all_permissions():
             return True
+        if self.certificate_has_all_permissions():
+            # "all" subject permissions can only be granted by an issuer holding "all"
+            return False
         return Certificate.check_all_requested_permissions_are_allowed(
             self.get_list_of_needed_permissions(),
             issuer.get_list_of_allowed_persmissions(),
